@@ -148,7 +148,7 @@ def parse_vspec(text, fname):
         elif line.startswith('#:'):
             parts = line[2:].split()
             label = (parts[0], [p for p in (parts[1].split(',') if len(parts) > 1 else []) if p])
-        elif line.startswith('@loop ') or line.startswith('@iter ') or line.startswith('@hint ') or line.startswith('@closure '):
+        elif line.startswith('@loop ') or line.startswith('@iter ') or line.startswith('@hint ') or line.startswith('@closure ') or line.startswith('@split '):
             sub = {'head': line, 'lines': [], 'where': (fname, lineno)}
             cur['subs'].append(sub)
             label = None
@@ -216,7 +216,7 @@ def _mk(lines, fnid, kind, default_props, indent=''):
     return '\n'.join(texts), metas
 
 
-def _weave_sub(sub, e, fnid, src, sig_end, body_close, lps, edits, vacuity):
+def _weave_sub(sub, e, fnid, src, sig_end, body_close, lps, edits, vacuity, split=None, splits=None):
     head = sub['head']
     lines = [x for x in sub['lines']]
     while lines and lines[-1][0].strip() == '':
@@ -239,6 +239,25 @@ def _weave_sub(sub, e, fnid, src, sig_end, body_close, lps, edits, vacuity):
         if not m:
             raise AnchorLost('loop %s of %s is not a for loop' % (k, fnid))
         edits.append(Edit(ks + m.end(), nm + ': ', 4))
+    elif head.startswith('@split '):
+        # @split <case> :: <anchor text> [:: <anchor text> ...]   path-split verification: the function is verified once per
+        # case with every OTHER case cut by `assume(false)` right after its anchor(s), and once with all cases cut.
+        parts = [x.strip() for x in head[len('@split '):].split(' :: ')]
+        case, anchors = parts[0], parts[1:]
+        splits.setdefault(fnid, [])
+        if case not in splits[fnid]:
+            splits[fnid].append(case)
+        cut = split is not None and not (split[0] == fnid and split[1] == case)
+        for a in anchors:
+            m = re.match(r'(\d+)\s+(.*)$', a)
+            k, text = (int(m.group(1)), m.group(2)) if m else (1, a)
+            pos = sig_end
+            for _ in range(k):
+                pos = src.find(text, pos + 1, body_close)
+                if pos < 0:
+                    raise AnchorLost('split anchor %r #%d in %s' % (text, k, fnid))
+            if cut:
+                edits.append(Edit(pos + len(text), ' proof { assume(false); } //@@SPLIT-CUT %s\n' % case, 9))
     elif head.strip() == '@hint start':
         text, metas = _mk(lines, fnid, 'hint', e['props'])
         edits.append(Edit(sig_end + 1, '\n' + text + '\n', 4, [None] + metas + [None]))
@@ -299,7 +318,7 @@ def _weave_sub(sub, e, fnid, src, sig_end, body_close, lps, edits, vacuity):
         edits.append(Edit(j, ' }', 8))
 
 
-def weave(src, vspecs, vacuity=False):
+def weave(src, vspecs, vacuity=False, split=None):
     """vspecs: [(filename, text)].  Returns (woven text, info) where info has:
        line_meta: {woven line -> meta}, fns: [{id, props, start_line, end_line, contract:bool}], obligations"""
     entries = []
@@ -309,6 +328,7 @@ def weave(src, vspecs, vacuity=False):
     fn_entries = []
     normalised = []
     lost_hints = []
+    splits = {}      # fn id -> [case name, ...]   (path-split verification, see _weave_sub '@split')
     for e in entries:
         ms, me = mod_range(src, e['mod'])
         bs, be = ms, me
@@ -380,7 +400,7 @@ def weave(src, vspecs, vacuity=False):
         lps = loops_in(src, sig_end, body_close)
         for sub in e['subs']:
           try:
-            _weave_sub(sub, e, fnid, src, sig_end, body_close, lps, edits, vacuity)
+            _weave_sub(sub, e, fnid, src, sig_end, body_close, lps, edits, vacuity, split, splits)
           except AnchorLost as ex:
             lost_hints.append({'fn': fnid, 'anchor': sub['head'], 'why': str(ex), 'where': '%s:%d' % sub['where']})
         continue
@@ -424,7 +444,7 @@ def weave(src, vspecs, vacuity=False):
     for fe in fn_entries:
         fe['start_line'] = line_of(map_pos(fe['kw']))
         fe['end_line'] = line_of(map_pos(fe['close']))
-    info = {'line_meta': line_meta, 'fn_entries': fn_entries, 'map_pos': map_pos, 'line_of': line_of, 'normalised_receivers': normalised, 'lost_hints': lost_hints}
+    info = {'line_meta': line_meta, 'fn_entries': fn_entries, 'map_pos': map_pos, 'line_of': line_of, 'normalised_receivers': normalised, 'lost_hints': lost_hints, 'splits': splits}
     return woven, info
 
 
